@@ -15,10 +15,36 @@ package formattedoutput
 //@   maypanic
 //@   assigns \fresh
 
+// the summary counts: for every level in the table, the count shown is the number of results of the
+// result set with exactly that status (countval / countvalall: number of visited / of all keys whose
+// result has the given status), levels in the table are above the threshold, and a level above the
+// threshold that is missing from the table has no result
 //@ func (*resultsTable).newRT [C15]
 //@   requires r != nil && results != nil
 //@   maypanic
 //@   assigns \fresh, r.resultCount, r.resultDetails, r.lintLevelsAboveThreshold, r.sortedLevels
+//@   loopframe
+//@   loop 1 invariant r.lintLevelsAboveThreshold != nil && fresh(r.lintLevelsAboveThreshold) && r.resultCount != nil && fresh(r.resultCount) &&
+//@                    r.resultCount != r.lintLevelsAboveThreshold && len(r.resultCount) == 0
+//@   loop 1 invariant all(n, int, implies(indom(r.lintLevelsAboveThreshold, n), r.lintLevelsAboveThreshold[n] > threshold))
+//@   loop 2 invariant r.lintLevelsAboveThreshold != nil && r.resultCount != nil && fresh(r.resultCount)
+//@   loop 2 invariant all(n, int, implies(indom(r.lintLevelsAboveThreshold, n), r.lintLevelsAboveThreshold[n] > threshold))
+//@   loop 2 invariant all(s, lint.LintStatus, implies(indom(r.resultCount, s), s > threshold))
+//@   loop 2 invariant all(s, lint.LintStatus, implies(indom(r.resultCount, s), r.resultCount[s] == 0))
+//@   loop 3 invariant r.resultCount != nil && fresh(r.resultCount)
+//@   loop 3 invariant all(s, lint.LintStatus, implies(indom(r.resultCount, s), s > threshold &&
+//@                        r.resultCount[s] == countval(3, key, int(results.Results[key].Status), int(s))))
+//@   loop 3 invariant all(s, lint.LintStatus, implies(s > threshold && !indom(r.resultCount, s),
+//@                        countval(3, key, int(results.Results[key].Status), int(s)) == 0))
+//@   loop 4 invariant r.resultCount != nil && fresh(r.resultCount)
+//@   loop 4 invariant all(s, lint.LintStatus, implies(indom(r.resultCount, s), s > threshold &&
+//@                        r.resultCount[s] == countvalall(results.Results, key, int(results.Results[key].Status), int(s))))
+//@   loop 4 invariant all(s, lint.LintStatus, implies(s > threshold && !indom(r.resultCount, s),
+//@                        countvalall(results.Results, key, int(results.Results[key].Status), int(s)) == 0))
+//@   ensures all(s, lint.LintStatus, implies(indom(result.resultCount, s), s > threshold &&
+//@                        result.resultCount[s] == countvalall(results.Results, key, int(results.Results[key].Status), int(s))))
+//@   ensures all(s, lint.LintStatus, implies(s > threshold && !indom(result.resultCount, s),
+//@                        countvalall(results.Results, key, int(results.Results[key].Status), int(s)) == 0))
 
 //@ func printTableHeadings [C15]
 //@   maypanic
